@@ -225,12 +225,9 @@ impl SyncComparison {
                     "device events divergence"
                 );
 
-                // NOTE: this will break the device revoke test spec!
-                /*
                 diff.device = Some(MaybeDiff::Compare(Some(
                     self.local_status.device.clone(),
                 )));
-                */
             }
         }
 
